@@ -25,6 +25,7 @@ def C19St.ans? (o : C19St) (a : String) : Option PeerAns :=
   | ["fail"] => some .fail
   | ["ok", h] => h.toNat?.map fun h => .ok (o.hdr h)
   | ["soft", h] => h.toNat?.map fun h => .soft (o.hdr h) true
+  | ["fresh", h] => h.toNat?.map fun h => .ok ⟨h, o.now - 2000000000⟩   -- another fork's header at height h, 2 s old
   | ["softbad", h] => h.toNat?.map fun h => .soft (o.hdr h) false
   | ["softnopath", h] => h.toNat?.map fun h => .soft (o.hdr h) false
   | _ => none
@@ -69,6 +70,8 @@ def c19Line (o : C19St) (line : String) : C19St :=
           match res.toNat? with
           | some r =>
             if r < o.lastRes then some "c19_monotone" else
+            -- whatever Head() hands out is not expired (a header of the chain at that height, or a fresh answer)
+            if expired o.cfg o.now (o.hdr r) && !(a1 == s!"fresh:{r}" || a2 == s!"fresh:{r}") then some "c19_never_returns_expired" else
             if !need && isRecent && reqs != "-" then some "c19_recent_no_request" else
             if !need && !isRecent && reqs != s!"HeadT:{(o.subj.map (·.height)).getD 0}" then some "c19_stale_one_request_with_trusted_head" else
             if need then
